@@ -196,8 +196,8 @@ func (n *SNode) Walk(f func(*SNode)) {
 
 // Model is a project: a root, named types and named enum rules.
 type Model struct {
-	Root  *SNode            `json:"root"`
-	Types map[string]*SNode `json:"types,omitempty"`
-	Enums map[string]string `json:"enums,omitempty"` // rule text
+	Root       *SNode            `json:"root"`
+	Types      map[string]*SNode `json:"types,omitempty"`
+	Enums      map[string]string `json:"enums,omitempty"` // rule text
 	RegexTypes map[string]string `json:"regex,omitempty"`
 }
